@@ -18,32 +18,42 @@ def NoSharedZero (ops : List Op) : Prop := ∀ op ∈ ops, op ≠ .deliverZeroTs
 theorem C08_stable (s : Sys) (later : List Op) (hlib : ∀ op ∈ later, isLib op = true)
     (hinv : ∀ r ∈ s.delivered, r.buf ≠ transport ∧ r.buf < s.next) :
     ∀ r ∈ s.delivered, r.read (run s later) = r.read s := by
-  sorry
+  intro r hr
+  obtain ⟨h0, hlt⟩ := hinv r hr
+  unfold Ref.read
+  rw [C08.run_lib_heap later s hlib r.buf h0 hlt]
 
 /-- every reachable system state satisfies the premise of `C08_stable` (delivered values never live in the
     transport buffer and only in existing buffers) -/
 theorem C08_delivered_not_transport (ops : List Op) :
     ∀ r ∈ (run init ops).delivered, r.buf ≠ transport ∧ r.buf < (run init ops).next := by
-  sorry
+  exact (C08.inv_run ops init C08.inv_init).2.1
 
 /-- Private: the delivered values are pairwise non-overlapping, so overwriting one of them changes no other one
     and no value delivered later … -/
 theorem C08_pairwise_disjoint (ops : List Op) (hz : NoSharedZero ops) (hs : SubsOK init ops) :
     (run init ops).delivered.Pairwise Ref.disjoint := by
-  sorry
+  exact (C08.pinv_run ops init C08.pinv_init hz hs).1
 
 theorem C08_private (s : Sys) (hd : s.delivered.Pairwise Ref.disjoint) (i j : Nat) (hij : i ≠ j) (v : Bytes)
     (ri rj : Ref) (hi : s.delivered[i]? = some ri) (hj : s.delivered[j]? = some rj)
     (hlen : ri.off + ri.len ≤ (s.heap ri.buf).length) :
     rj.read (step s (.scribble i v)) = rj.read s := by
-  sorry
+  have hdis : ri.disjoint rj := by
+    rcases Nat.lt_or_gt_of_ne hij with h | h
+    · exact C08.pairwise_getElem? hd h hi hj
+    · exact C08.disjoint_symm (C08.pairwise_getElem? hd h hj hi)
+  exact C08.scribble_read s i v ri rj hi hdis hlen
 
 /-- … and later deliveries are unaffected too: a value delivered after a scribble reads what the decoder wrote -/
 theorem C08_later_delivery_unaffected (s : Sys) (i : Nat) (v w : Bytes) :
     let s1 := step s (.scribble i v)
     let s2 := step s1 (.deliverFresh w)
     (∃ r, s2.delivered.getLast? = some r ∧ r.read s2 = w) := by
-  sorry
+  intro s1 s2
+  refine ⟨⟨s1.next, 0, w.length⟩, ?_, ?_⟩
+  · simp [s2, step]
+  · simp [s2, step, Ref.read, C08.setBuf_same]
 
 /-- the F5 schedule is real in the model: with the shared constant, scribbling on one delivered zero timestamp
     changes the next one -/
@@ -51,7 +61,7 @@ theorem C08_shared_zero_breaks_privacy :
     let s := run init [.deliverZeroTs true, .deliverZeroTs true]
     let s' := step s (.scribble 0 (List.replicate 19 88))
     (∀ r, s.delivered[1]? = some r → r.read s' ≠ r.read s) := by
-  sorry
+  decide
 
 /-! the link to the decoder: the values CellBytes returns as sub-slices of its input lie inside the cell's own
     bytes, so distinct cells (which occupy disjoint ranges of the image) give non-overlapping slices -/
@@ -63,7 +73,20 @@ theorem C08_cell_within (E : Ext) (data : Bytes) (pos typ md : Nat) (u : Bool) (
     (ht : typ ∈ subSliceTypes ∨ (typ = 254 ∧ md / 256 ≠ 247 ∧ md / 256 ≠ 248))
     (h : cellBytes E data pos typ md u = .ok (v, l)) :
     ∃ off, off + v.length ≤ l ∧ pos + l ≤ data.length ∧ v = (data.drop (pos + off)).take v.length := by
-  sorry
+  show C08.Within data pos v l
+  rcases ht with ht | ⟨rfl, h7, h8⟩
+  · simp only [subSliceTypes, List.mem_cons, List.mem_nil_iff, or_false] at ht
+    rcases ht with ht | ht | rfl | rfl | ht | ht | ht | ht | ht
+    · exact C08.within_varchar E data pos typ md u l v (Or.inl ht) h
+    · exact C08.within_varchar E data pos typ md u l v (Or.inr ht) h
+    · exact C08.within_16 E data pos md u l v h
+    · exact C08.within_248 E data pos md u l v h
+    · exact C08.within_blob E data pos typ md u l v (Or.inl ht) h
+    · exact C08.within_blob E data pos typ md u l v (Or.inr (Or.inl ht)) h
+    · exact C08.within_blob E data pos typ md u l v (Or.inr (Or.inr (Or.inl ht))) h
+    · exact C08.within_blob E data pos typ md u l v (Or.inr (Or.inr (Or.inr (Or.inl ht)))) h
+    · exact C08.within_blob E data pos typ md u l v (Or.inr (Or.inr (Or.inr (Or.inr ht)))) h
+  · exact C08.within_254 E data pos md u l v h7 h8 h
 
 /-! non-vacuity -/
 example : SubsOK init [.readPacket [0, 1, 2, 3, 4, 5], .newEvent, .deliverSub 0 2, .deliverSub 2 3] := by
